@@ -40,7 +40,8 @@ func (m *FileImporter) Name() string {
 			path = p
 		}
 	}
-	return path
+	// one file has one name, however the import spells its path
+	return filepath.Clean(path)
 }
 
 // Import returns the content of the path determined by Name call. Empty name
